@@ -3,7 +3,7 @@
    together with the stack / pair / option / list instructions a program needs to move tickets
    around (instructions/stack.py, adt.py, struct.py, control.py IF_NONE / IF_CONS / ITER / MAP over lists).
 
-   Domain: ticket contents are nat or string values (the comparable types the harness generates);
+   Domain: ticket contents are nat, string, and options / pairs of them (comparable types);
    TICKET on any other content is outside the model (Reject).  The state carries a ghost ledger
    [minted] of the tickets created by TICKET; it is not observable and never read by [step].
    No proofs here (Proofs/Tickets_proofs.v). *)
@@ -13,14 +13,15 @@ From PV Require Import Base.Bytes Base.Result.
 Import ListNotations.
 Local Open Scope Z_scope.
 
-Inductive cty := CNat | CString.
+(* comparable content types / values of the modelled domain: nat, string, options and pairs of them *)
+Inductive cty := CNat | CString | COption (c : cty) | CPair (a b : cty).
 
 Inductive ty :=
 | TNat | TString | TAddress
 | TTicket (c : cty)
 | TPair (a b : ty) | TOption (a : ty) | TList (a : ty).
 
-Inductive cval := CN (z : Z) | CS (s : bytes).
+Inductive cval := CN (z : Z) | CS (s : bytes) | CNone (t : cty) | CSome (c : cval) | CPairV (a b : cval).
 
 Inductive val :=
 | VNat (z : Z) | VStr (s : bytes) | VAddr (a : bytes)
@@ -39,8 +40,13 @@ Inductive instr :=
 | SELF_IS (a : bytes).       (* harness pseudo-instruction: context.address := a *)
 
 (* ---- equality tests ---- *)
-Definition cty_eqb (a b : cty) : bool :=
-  match a, b with CNat, CNat | CString, CString => true | _, _ => false end.
+Fixpoint cty_eqb (a b : cty) : bool :=
+  match a, b with
+  | CNat, CNat | CString, CString => true
+  | COption x, COption y => cty_eqb x y
+  | CPair a1 a2, CPair b1 b2 => cty_eqb a1 b1 && cty_eqb a2 b2
+  | _, _ => false
+  end.
 
 Fixpoint ty_eqb (a b : ty) : bool :=
   match a, b with
@@ -51,10 +57,14 @@ Fixpoint ty_eqb (a b : ty) : bool :=
   | _, _ => false
   end.
 
-Definition cval_eqb (a b : cval) : bool :=
+(* structural (Michelson) equality of contents *)
+Fixpoint cval_eqb (a b : cval) : bool :=
   match a, b with
   | CN x, CN y => x =? y
   | CS x, CS y => bytes_eqb x y
+  | CNone x, CNone y => cty_eqb x y
+  | CSome x, CSome y => cval_eqb x y
+  | CPairV a1 a2, CPairV b1 b2 => cval_eqb a1 b1 && cval_eqb a2 b2
   | _, _ => false
   end.
 
@@ -78,9 +88,33 @@ Fixpoint val_eqb (a b : val) : bool :=
   end.
 
 (* ---- types of values ---- *)
-Definition cty_of (c : cval) : cty := match c with CN _ => CNat | CS _ => CString end.
-Definition ty_of_cty (c : cty) : ty := match c with CNat => TNat | CString => TString end.
-Definition val_of_cval (c : cval) : val := match c with CN z => VNat z | CS s => VStr s end.
+Fixpoint cty_of (c : cval) : cty :=
+  match c with
+  | CN _ => CNat | CS _ => CString
+  | CNone t => COption t
+  | CSome x => COption (cty_of x)
+  | CPairV a b => CPair (cty_of a) (cty_of b)
+  end.
+Fixpoint ty_of_cty (c : cty) : ty :=
+  match c with
+  | CNat => TNat | CString => TString
+  | COption x => TOption (ty_of_cty x)
+  | CPair a b => TPair (ty_of_cty a) (ty_of_cty b)
+  end.
+Fixpoint cty_of_ty (t : ty) : option cty :=
+  match t with
+  | TNat => Some CNat | TString => Some CString
+  | TOption x => match cty_of_ty x with Some c => Some (COption c) | None => None end
+  | TPair a b => match cty_of_ty a, cty_of_ty b with Some x, Some y => Some (CPair x y) | _, _ => None end
+  | _ => None
+  end.
+Fixpoint val_of_cval (c : cval) : val :=
+  match c with
+  | CN z => VNat z | CS s => VStr s
+  | CNone t => VNone (ty_of_cty t)
+  | CSome x => VSome (val_of_cval x)
+  | CPairV a b => VPair (val_of_cval a) (val_of_cval b)
+  end.
 
 Fixpoint type_of (v : val) : ty :=
   match v with
@@ -173,8 +207,15 @@ Fixpoint dug (n : nat) (x : val) (s : list val) : option (list val) :=
   end.
 
 (* ticket contents of the modelled domain *)
-Definition content_of (v : val) : option cval :=
-  match v with VNat z => Some (CN z) | VStr x => Some (CS x) | _ => None end.
+Fixpoint content_of (v : val) : option cval :=
+  match v with
+  | VNat z => Some (CN z)
+  | VStr x => Some (CS x)
+  | VNone t => match cty_of_ty t with Some c => Some (CNone c) | None => None end
+  | VSome x => match content_of x with Some c => Some (CSome c) | None => None end
+  | VPair a b => match content_of a, content_of b with Some x, Some y => Some (CPairV x y) | _, _ => None end
+  | _ => None
+  end.
 
 Fixpoint step (i : instr) (st : state) {struct i} : result state :=
   match i, stk st with
